@@ -231,6 +231,20 @@ func ops() []op {
 		out = append(out, op{"Bundle.WriteTo/" + string(ver), func(o *mon.Rand) any { return buildBundle(o, ver) },
 			func(in any, w io.Writer) error { _, err := in.(*bundle.Bundle).WriteTo(w); return err }})
 	}
+	// many exchanges of very uneven size (a writer that encodes responses in parallel must still lay them out in order)
+	out = append(out, op{"Bundle.WriteTo/many-uneven-exchanges", func(o *mon.Rand) any {
+		b := &bundle.Bundle{Version: bver.VersionB2}
+		for i := 0; i < 100; i++ {
+			n := 10 + i%7
+			if i%33 == 1 {
+				n = 200 << 10
+			}
+			h := headerFrom(o, fixedPairs(fmt.Sprintf("m%d", i), 2), pair{"Content-Type", "text/plain"})
+			b.Exchanges = append(b.Exchanges, &bundle.Exchange{Request: bundle.Request{URL: mustURL(fmt.Sprintf("https://example.com/many/%d", i)), Header: http.Header{}},
+				Response: bundle.Response{Status: 200, Header: h, Body: bytes.Repeat([]byte{byte('a' + i%26)}, n)}})
+		}
+		return b
+	}, func(in any, w io.Writer) error { _, err := in.(*bundle.Bundle).WriteTo(w); return err }})
 	out = append(out, op{"Response.EncodeHeader", func(o *mon.Rand) any {
 		return bundle.Response{Status: 404, Header: headerFrom(o, fixedPairs("eh", 70), pair{"Content-Type", "a/b"}, pair{"Content-Type", "second"})}
 	}, func(in any, w io.Writer) error {
